@@ -502,3 +502,241 @@ def get_module(run, twin=None):
         prove('per-request-cache-first', fr(Self2(), 'n') is sentinel, clause='within one change-checking context a module is looked up once', path=path)
         run.case = None
     core.explore(lambda: None, lambda p, out: cache_paths(p))
+
+
+# ---------------------------------------------------------------------------
+# C09: cache transparency.  Ghost state: deps(m) = the modules whose analysis m's analysis consulted (star imports copied at extraction,
+# ImportedName._ref memoised inside m's scope); valid(m) <=> m's cached analysis equals a fresh one
+#   valid(m)  <=  not changed(m)  and  every d in deps(m) is valid  and  no name that failed to resolve for m resolves now
+# (dependency-closure lemma, justified by the frame scan: the only file-system reads are in project.py / module.py, the only cross-module
+# references are created by get_nmodule).
+
+STALE_REPLAY = '''import sys, os, time, tempfile, shutil; sys.path.insert(0, %(repo)r)
+from supp.assistant import assist
+from supp.project import Project
+d = tempfile.mkdtemp(prefix='supp-c09-')
+try:
+    def write(name, text, t):
+        p = os.path.join(d, name); open(p, 'w').write(text); os.utime(p, (t, t))
+    write('c.py', 'cname1 = 1\\n', 1000)
+    write('b.py', 'from c import *\\n', 1000)
+    main = 'import b\\nb.\\n'
+    p = Project([d])
+    with p.check_changes():
+        first = assist(p, main, (2, 2), os.path.join(d, 'main.py'))[1]
+    write('c.py', 'cname2 = 1\\n', 2000)                    # only c changes; b.py (which star-imports it) does not
+    with p.check_changes():
+        cached = assist(p, main, (2, 2), os.path.join(d, 'main.py'))[1]
+    with Project([d]).check_changes():
+        pass
+    fresh_p = Project([d])
+    with fresh_p.check_changes():
+        fresh = assist(fresh_p, main, (2, 2), os.path.join(d, 'main.py'))[1]
+    if cached != fresh:
+        print('REPRODUCED: history create b (from c import *), c; request; rewrite c; request: long-lived project offers %%r, a fresh one %%r' %% (cached, fresh)); sys.exit(1)
+    print('not reproduced')
+finally:
+    shutil.rmtree(d, ignore_errors=True)
+'''
+
+
+@harness(['C09'], 'supp.project.Project.get_module[Inv_cache] / check_changes / SourceModule.changed', twins=('spec-never-serve-from-the-cache',))
+def cache_invariant(run, twin=None):
+    """Inv_cache: every module served inside a change-checking context is valid.  The abstract module store holds a module `a` whose analysis
+    consulted module `b` (dep) - whether each file changed since it was cached is symbolic.  get_module('a') must not serve a cached `a`
+    unless `a` is unchanged AND, if `a` depends on `b`, `b` is unchanged too (dependency closure).  check_changes() empties the per-request
+    cache; SourceModule.changed compares the recorded mtime with the file's current one"""
+    import supp.project as Pj
+    import supp.module as Md
+    run.concretise = lambda model, ob: {'input': 'history: create b (from c import *) and c; request; rewrite c; request',
+                                        'script': STALE_REPLAY % {'repo': core.REPO}}
+    ch_a, ch_b, dep = z3.Bool('file_of_a_changed'), z3.Bool('file_of_b_changed'), z3.Bool('analysis_of_a_consulted_b')
+    holder = {}
+
+    class Mod(object):
+        def __init__(self, name, ch):
+            self.name, self._ch = name, ch
+            self.fresh = False
+
+        @property
+        def changed(self):
+            return core.CUR.branch(self._ch)
+
+    f = loader.load('supp.project', 'Project.get_module',
+                    stubs={'sys': type('S', (), {'modules': {}, 'path': []}), 'os': fs_stub(list(Pj.SUFFIXES)),
+                           'SourceModule': lambda proj, n, fn: ('fresh', n), 'ImportedModule': lambda m: ('imported', m)})
+
+    def body():
+        a, b = Mod('a', ch_a), Mod('b', ch_b)
+
+        class Self(object):
+            _context_cache = {}
+            _module_cache = {'a': a, 'b': b}
+            dyn_modules = set()
+
+            def get_path(self):
+                return []
+        holder.update(a=a, s=Self())
+        try:
+            return f(holder['s'], 'a')
+        except ImportError:
+            return 'looked-up-afresh'
+
+    def on_path(p, out):
+        if out[0] != 'ok':
+            prove('no-exception(%s)' % type(out[1]).__name__, False, path=p)
+            return
+        r = out[1]
+        if r is holder['a']:
+            prove('cached-module-served-only-if-its-own-file-is-unchanged', z3.Not(ch_a) if not twin else z3.BoolVal(False),
+                  clause='a cached module is served only if its own file is unchanged', path=p)
+            prove('cached-module-served-only-if-what-it-consulted-is-unchanged', z3.Implies(dep, z3.Not(ch_b)),
+                  clause='... and only if the files its analysis consulted are unchanged (dependency closure of Inv_cache)', path=p)
+        else:
+            prove('changed-module-is-looked-up-afresh', ch_a, clause='a module is dropped only when its own file changed', path=p)
+    core.explore(body, on_path)
+
+    def ground(path):
+        p = Pj.Project(['/nonexistent'])
+        p._context_cache['x'] = 1
+        with p.check_changes():
+            inside = dict(p._context_cache)
+        prove('check_changes-empties-the-per-request-cache', inside == {}, path=path)
+        import os
+        import tempfile
+        d = tempfile.mkdtemp(prefix='supp-c09-')
+        try:
+            fn = os.path.join(d, 'm.py')
+            open(fn, 'w').write('x = 1\n')
+            os.utime(fn, (1000, 1000))
+            m = Md.SourceModule(p, 'm', fn)
+            c0 = m.changed
+            os.utime(fn, (2000, 2000))
+            c1 = m.changed
+            os.utime(fn, (500, 500))
+            c2 = m.changed
+            prove('changed-iff-the-mtime-differs', (c0, c1, c2) == (False, True, True),
+                  clause='SourceModule.changed <=> current mtime != mtime recorded at creation (also when it went backwards)', path=path)
+            s1 = m.scope
+            prove('analysis-memoised-per-module-object', m.scope is s1, path=path)
+        finally:
+            import shutil
+            shutil.rmtree(d, ignore_errors=True)
+    core.explore(lambda: None, lambda p, out: ground(p))
+
+
+@harness(['C07', 'C04'], 'supp.name.ImportedName.resolve')
+def imported_name_resolve(run):
+    """`from m import x`: x is first looked up as the submodule m.x (relative specifiers joined without an extra dot), and only if that is not
+    importable as the attribute x of module m; `import m`: the module m (wrapped with the sibling dotted imports); an unresolvable module
+    gives None; the outcome is memoised on the name"""
+    import supp.name as Nm
+
+    def go(path):
+        for module, mname, sub_exists, mod_exists in [('pkg', 'x', True, True), ('pkg', 'x', False, True), ('pkg', 'x', False, False),
+                                                      ('.', 'x', True, True), ('..pkg', 'x', False, True), ('pkg', None, False, True),
+                                                      ('pkg', None, False, False)]:
+            run.case = 'from %s import %s [submodule %s, module %s]' % (module, mname, sub_exists, mod_exists)
+            calls = []
+            sub, attrval = object(), object()
+
+            class Mod(object):
+                def get_attr(self, ctx, name):
+                    calls.append(('get_attr', name))
+                    return attrval
+            themod = Mod()
+
+            class Proj(object):
+                def get_nmodule(self, name, filename):
+                    calls.append(('get_nmodule', name))
+                    joined = ((module + '.' + mname) if module.strip('.') else (module + mname)) if mname else None
+                    if mname and name == joined:
+                        if sub_exists:
+                            return sub
+                        raise ImportError(name)
+                    if name == module:
+                        if mod_exists:
+                            return themod
+                        raise ImportError(name)
+                    raise AssertionError('unexpected module name %r' % name)
+
+            class Ctx(object):
+                project = Proj()
+
+            class Src(object):
+                filename = '/p/f.py'
+
+            class Top(object):
+                source = Src()
+                _imports = []
+
+            class Sc(object):
+                top = Top()
+            n = Nm.ImportedName('x', (1, 0), (1, 0), module, mname)
+            n.scope = Sc()
+            import logging
+            logging.disable(logging.CRITICAL)
+            try:
+                r1 = n.resolve(Ctx())
+                r2 = n.resolve(Ctx())
+                exc = None
+            except Exception as e:
+                r1 = r2 = None
+                exc = e
+            finally:
+                logging.disable(logging.NOTSET)
+            if mname:
+                want = sub if sub_exists else (attrval if mod_exists else None)
+            else:
+                want = themod if mod_exists else None
+            prove('submodule-first-then-attribute', exc is None and r1 is want,
+                  clause='resolves to the submodule if there is one, else to the attribute of the module, else None [%r]' % (exc or r1,), path=path)
+            first = calls[0] if calls else None
+            if mname:
+                prove('submodule-tried-first', first == ('get_nmodule', (module + '.' + mname) if module.strip('.') else (module + mname)), path=path)
+            prove('memoised', r2 is r1 and n._ref is r1, path=path)
+        run.case = None
+    core.explore(lambda: None, lambda p, out: go(p))
+
+
+@harness(['C07'], 'supp.project.Project.list_packages', bounded='directory trees: 2 source roots x every subset of 6 entry kinds (module, package, plain directory, '
+         'compiled-suffix file, __init__.py, non-python file) in the listed directory; names over a 3-letter alphabet')
+def list_packages_bounded(run):
+    """BOUNDED stand-in (nested loops over os.listdir results with suffix stripping): the children listed for a package root are exactly
+    the importable children (module files by importlib's suffixes, package directories) of that package directory in every root, plus
+    the already-loaded submodules; not counted as proved"""
+    import itertools
+    import os
+    import shutil
+    import tempfile
+    import importlib.machinery
+    from supp.project import Project
+
+    def go(path):
+        kinds = {'mod': lambda d: open(os.path.join(d, 'ma.py'), 'w').close(),
+                 'pkg': lambda d: (os.makedirs(os.path.join(d, 'pb')), open(os.path.join(d, 'pb', '__init__.py'), 'w').close()),
+                 'plaindir': lambda d: os.makedirs(os.path.join(d, 'dc')),
+                 'ext': lambda d: open(os.path.join(d, 'ex' + importlib.machinery.EXTENSION_SUFFIXES[0]), 'w').close(),
+                 'init': lambda d: open(os.path.join(d, '__init__.py'), 'w').close(),
+                 'other': lambda d: open(os.path.join(d, 'notes.txt'), 'w').close()}
+        expect = {'mod': 'ma', 'pkg': 'pb', 'ext': 'ex'}
+        names = sorted(kinds)
+        n = 0
+        for r in range(len(names) + 1):
+            for combo in itertools.combinations(names, r):
+                top = tempfile.mkdtemp(prefix='supp-c07-')
+                try:
+                    r1, r2 = os.path.join(top, 'r1'), os.path.join(top, 'r2')
+                    for root in (r1, r2):
+                        os.makedirs(os.path.join(root, 'pk'))
+                    open(os.path.join(r1, 'pk', '__init__.py'), 'w').close()
+                    for k in combo:
+                        kinds[k](os.path.join(r1 if k != 'ext' else r2, 'pk'))
+                    got = Project([r1, r2]).list_packages('pk')
+                    want = {expect[k] for k in combo if k in expect}
+                    n += 1
+                    prove('children-of-pk-with-%s' % ('+'.join(combo) or 'nothing'), got == want,
+                          clause='list_packages == importable children [%r vs %r]' % (sorted(got), sorted(want)), path=path)
+                finally:
+                    shutil.rmtree(top, ignore_errors=True)
+    core.explore(lambda: None, lambda p, out: go(p))
